@@ -52,7 +52,9 @@ def gen_plan(seed, tier):
     if p is not None:
       break
   if unknown and p.get("n_constraints", 1) is None and r.random() < 0.5:
-    p["n_constraints"] = r.choice([10, 25, 60])
+    p["n_constraints"] = r.choice([10, 25, 60, 200, 500])
+  elif not unknown and p.get("n_constraints", 1) is None and r.random() < 0.25:
+    p["n_constraints"] = r.choice([15, 40, 200, 700])     # more than the labeled points can supply, too
   if r.random() < 0.2:
     desc["dups"] = r.randint(1, 2)        # identical rows at different indices
   if unknown and r.random() < 0.35:
@@ -244,6 +246,15 @@ def run_plan(plan):
     if name == "SCML_Supervised" and isinstance(params.get("basis"), str) and bo.missing:
       raise Inconclusive("seam_missing_components_builder")
     nc_obs = no.seen[0] if (no.seen and isinstance(no.seen[0], (int, np.integer))) else None
+    if "n_constraints" in params and params["n_constraints"] is None and not np.any(y < 0) and \
+        nc_obs is not None and not name.startswith(("RCA", "SCML")):
+      want = 20 * len(np.unique(y)) ** 2
+      cov["default_n_constraints_checked"] += 1
+      if int(nc_obs) != want:
+        raise Violation("default_n_constraints", "cls=%s" % name,
+                        "n_constraints=None on fully labelled data with %d classes asked the helper for %r "
+                        "constraints; documented default 20 * num_classes**2 = %d"
+                        % (len(np.unique(y)), nc_obs, want))
     if params.get("n_constraints", 1) is None and plan["unknown"] and nc_obs is None and \
         not name.startswith(("RCA", "SCML")):
       raise Inconclusive("default_n_constraints_not_observable")
